@@ -37,6 +37,7 @@ type Obligation struct {
 	smtText  string
 	relaxed  bool // quantified assumptions dropped (model search only)
 	RelaxedModel bool
+	Reveal   []string
 	Vacuous  bool
 	IsCanary bool
 }
@@ -71,6 +72,7 @@ type Exec struct {
 	sentinels  map[string]bool
 	boxed      map[*Term]Value
 	reveal     map[string]bool
+	closeSites map[string]bool
 }
 
 func NewExec(P *Program, S *Specs, key string) *Exec {
@@ -198,6 +200,8 @@ type frame struct {
 	callSeq map[string]int
 	defCtx map[ssa.Value][]*loopInfo
 	loopLets map[string]map[string]Value
+	loopHeads map[string]*State
+	closable  bool
 }
 
 type retState struct {
@@ -518,6 +522,7 @@ func (f *frame) runNode(n *node) {
 		return
 	case "backinv":
 		f.checkInvariants(n.Loop, st, "inv-preserve", n)
+		f.loopFrameCheck(n.Loop, st, n)
 		return
 	}
 	if n.InvHead {
